@@ -17,6 +17,19 @@ CHECKS = {
              'harness/props/c10.py. Names are valid Data Package names; integer selectors in range; concatenate on a consecutive selection.',
         technique='TLA+ spec (Regex/Selector/MC_Selector) model-checked with TLC; every TLC-exported transition replayed into the real processors',
         design='6/C10', specs=['Regex.tla', 'Selector.tla', 'MC_Selector.tla']),
+    'C01': dict(
+        level='model_checking',
+        text='Engine.tla models the lazy pull engine as a coroutine stack machine (one action per generator resumption) next to the '
+             'step-by-step meaning Eval; TLC checks LazyEqualsEager/NoDeadlock/ObserverComplete for every program of length <=3 (quick) / <=4 '
+             '(thorough) over 7 step kinds. Real executions (400/4000 random programs of length <=6, three driver modes, several real '
+             'processors per abstract kind) are recorded by boundary probes and validated by TLC against EngineTrace.tla: every event must '
+             'be the model\'s next visible transition and the recorded results must equal Eval(steps). On the full Menu of ~45 built-in step '
+             'instances the property\'s own differential is replayed: chained vs each step alone on materialised output, every split into '
+             'nested Flows, always-true conditional wrapping, results()/process()/datastream(); plus link dispatch for every callable flavour.',
+        note='Trusted: TLC, the binding abstract kind -> real processor (harness/engine.py), probes. The Menu differential is real-vs-real '
+             '(the statement itself is a differential); ill-typed programs are compared as "both raise". The inference sample is set to 2 rows for engine traces.',
+        technique='TLA+ engine model checked with TLC + TLC trace validation of probe-recorded executions + differential replay of program menus',
+        design='6/C01', specs=['Engine.tla', 'EngineTrace.tla']),
 }
 
 NOT_YET = 'check not built yet (build in progress, see DESIGN.md section 10)'
